@@ -784,9 +784,21 @@ fn decompress_udp(
     };
     *payload_len += udp_payload_len + 8;
     *decompressed_len += udp_repr.0.header_len() + payload.len();
+    buffer[8..][..payload.len()].copy_from_slice(payload);
     let mut udp = UdpPacket::new_unchecked(&mut buffer[..payload.len() + 8]);
     udp_repr.0.emit_header(&mut udp, udp_payload_len);
-    buffer[8..][..payload.len()].copy_from_slice(payload);
+    match udp_packet.checksum() {
+        // The checksum is carried in-line: keep it, it is verified like that of any
+        // other UDP datagram once the whole datagram is there.
+        Some(checksum) => udp.set_checksum(checksum),
+        // The checksum was elided and has to be recomputed (RFC 6282 4.3.2), which is
+        // possible here only when the datagram is not fragmented.
+        None if total_len.is_none() => udp.fill_checksum(
+            &iphc_repr.src_addr.into(),
+            &iphc_repr.dst_addr.into(),
+        ),
+        None => (),
+    }
     Ok(())
 }
 
